@@ -160,29 +160,35 @@ package asm
 //@   ensures isnil(err) ==> all(l, string, all(i, int, old(has(a.danglingS8, l)) && 0 <= i && i < old(len(a.danglingS8[l])) ==> int(a.labels[l])-int(old(a.danglingS8[l][i])+1) <= 127 && int(a.labels[l])-int(old(a.danglingS8[l][i])+1) >= -128))
 //@   ensures isnil(err) ==> all(l, string, all(i, int, old(has(a.danglingS8, l)) && 0 <= i && i < old(len(a.danglingS8[l])) ==> a.code[old(a.danglingS8[l][i])-a.base] == uint8(a.labels[l]-(old(a.danglingS8[l][i])+1))))
 //@   ensures isnil(err) ==> all(l, string, all(i, int, old(has(a.danglingU16, l)) && 0 <= i && i < old(len(a.danglingU16[l])) ==> a.code[old(a.danglingU16[l][i])-a.base] == uint8(a.labels[l]) && a.code[old(a.danglingU16[l][i])-a.base+1] == uint8(a.labels[l]>>8)))
+//@   ensures !isnil(err) ==> any(l, string, (old(has(a.danglingS8, l)) || old(has(a.danglingU16, l))) && !has(a.labels, l)) || any(l, string, any(i, int, old(has(a.danglingS8, l)) && has(a.labels, l) && 0 <= i && i < old(len(a.danglingS8[l])) && !(int(a.labels[l])-int(old(a.danglingS8[l][i])+1) <= 127 && int(a.labels[l])-int(old(a.danglingS8[l][i])+1) >= -128)))
+//@   ensures all(o, int, 0 <= o && o < len(a.code) && a.code[o] != old(a.code[o]) ==> (any(l, string, any(i, int, old(has(a.danglingS8, l)) && 0 <= i && i < old(len(a.danglingS8[l])) && o == int(old(a.danglingS8[l][i])-a.base))) || any(l, string, any(i, int, old(has(a.danglingU16, l)) && 0 <= i && i < old(len(a.danglingU16[l])) && (o == int(old(a.danglingU16[l][i])-a.base) || o == int(old(a.danglingU16[l][i])-a.base)+1)))))
 //@   assigns a.code[:], a.danglingS8, a.danglingU16
 //@   loop 1 invariant all(l, string, visited(1, l) ==> old(has(a.danglingS8, l))) && all(l, string, has(a.danglingS8, l) == (old(has(a.danglingS8, l)) && !visited(1, l)))
 //@   loop 1 invariant all(l, string, all(j, int, len(a.danglingS8[l]) == old(len(a.danglingS8[l])) && a.danglingS8[l][j] == old(a.danglingS8[l][j])))
 //@   loop 1 invariant all(l, string, visited(1, l) ==> has(a.labels, l))
 //@   loop 1 invariant all(l, string, all(i, int, visited(1, l) && 0 <= i && i < old(len(a.danglingS8[l])) ==> int(a.labels[l])-int(old(a.danglingS8[l][i])+1) <= 127 && int(a.labels[l])-int(old(a.danglingS8[l][i])+1) >= -128))
 //@   loop 1 invariant all(l, string, all(i, int, visited(1, l) && 0 <= i && i < old(len(a.danglingS8[l])) ==> a.code[old(a.danglingS8[l][i])-a.base] == uint8(a.labels[l]-(old(a.danglingS8[l][i])+1))))
+//@   loop 1 invariant all(o, int, 0 <= o && o < len(a.code) && a.code[o] != old(a.code[o]) ==> (any(l, string, any(i, int, old(has(a.danglingS8, l)) && 0 <= i && i < old(len(a.danglingS8[l])) && o == int(old(a.danglingS8[l][i])-a.base))) || any(l, string, any(i, int, old(has(a.danglingU16, l)) && 0 <= i && i < old(len(a.danglingU16[l])) && (o == int(old(a.danglingU16[l][i])-a.base) || o == int(old(a.danglingU16[l][i])-a.base)+1)))))
 //@   loop 1 modifies a.code[:], a.danglingS8
 //@   loop 2 invariant all(j, int, 0 <= j && j < len(refs) ==> refs[j] == old(a.danglingS8[label][j])) && len(refs) == old(len(a.danglingS8[label])) && has(a.labels, label) && addr == a.labels[label] && old(has(a.danglingS8, label))
 //@   loop 2 invariant all(l, string, all(i, int, visited(1, l) && l != label && 0 <= i && i < old(len(a.danglingS8[l])) ==> int(a.labels[l])-int(old(a.danglingS8[l][i])+1) <= 127 && int(a.labels[l])-int(old(a.danglingS8[l][i])+1) >= -128))
 //@   loop 2 invariant all(l, string, all(i, int, visited(1, l) && l != label && 0 <= i && i < old(len(a.danglingS8[l])) ==> a.code[old(a.danglingS8[l][i])-a.base] == uint8(a.labels[l]-(old(a.danglingS8[l][i])+1))))
 //@   loop 2 invariant all(i, int, 0 <= i && i <= rangeindex ==> int(a.labels[label])-int(old(a.danglingS8[label][i])+1) <= 127 && int(a.labels[label])-int(old(a.danglingS8[label][i])+1) >= -128)
 //@   loop 2 invariant all(i, int, 0 <= i && i <= rangeindex ==> a.code[old(a.danglingS8[label][i])-a.base] == uint8(a.labels[label]-(old(a.danglingS8[label][i])+1)))
+//@   loop 2 invariant all(o, int, 0 <= o && o < len(a.code) && a.code[o] != old(a.code[o]) ==> (any(l, string, any(i, int, old(has(a.danglingS8, l)) && 0 <= i && i < old(len(a.danglingS8[l])) && o == int(old(a.danglingS8[l][i])-a.base))) || any(l, string, any(i, int, old(has(a.danglingU16, l)) && 0 <= i && i < old(len(a.danglingU16[l])) && (o == int(old(a.danglingU16[l][i])-a.base) || o == int(old(a.danglingU16[l][i])-a.base)+1)))))
 //@   loop 2 modifies a.code[:]
 //@   loop 3 invariant all(l, string, all(i, int, old(has(a.danglingS8, l)) && 0 <= i && i < old(len(a.danglingS8[l])) ==> int(a.labels[l])-int(old(a.danglingS8[l][i])+1) <= 127 && int(a.labels[l])-int(old(a.danglingS8[l][i])+1) >= -128)) && all(l, string, all(i, int, old(has(a.danglingS8, l)) && 0 <= i && i < old(len(a.danglingS8[l])) ==> a.code[old(a.danglingS8[l][i])-a.base] == uint8(a.labels[l]-(old(a.danglingS8[l][i])+1)))) && all(l, string, old(has(a.danglingS8, l)) ==> has(a.labels, l))
 //@   loop 3 invariant all(l, string, visited(3, l) ==> old(has(a.danglingU16, l))) && all(l, string, has(a.danglingU16, l) == (old(has(a.danglingU16, l)) && !visited(3, l)))
 //@   loop 3 invariant all(l, string, all(j, int, len(a.danglingU16[l]) == old(len(a.danglingU16[l])) && a.danglingU16[l][j] == old(a.danglingU16[l][j])))
 //@   loop 3 invariant all(l, string, visited(3, l) ==> has(a.labels, l))
 //@   loop 3 invariant all(l, string, all(i, int, visited(3, l) && 0 <= i && i < old(len(a.danglingU16[l])) ==> a.code[old(a.danglingU16[l][i])-a.base] == uint8(a.labels[l]) && a.code[old(a.danglingU16[l][i])-a.base+1] == uint8(a.labels[l]>>8)))
+//@   loop 3 invariant all(o, int, 0 <= o && o < len(a.code) && a.code[o] != old(a.code[o]) ==> (any(l, string, any(i, int, old(has(a.danglingS8, l)) && 0 <= i && i < old(len(a.danglingS8[l])) && o == int(old(a.danglingS8[l][i])-a.base))) || any(l, string, any(i, int, old(has(a.danglingU16, l)) && 0 <= i && i < old(len(a.danglingU16[l])) && (o == int(old(a.danglingU16[l][i])-a.base) || o == int(old(a.danglingU16[l][i])-a.base)+1)))))
 //@   loop 3 modifies a.code[:], a.danglingU16
 //@   loop 4 invariant all(l, string, all(i, int, old(has(a.danglingS8, l)) && 0 <= i && i < old(len(a.danglingS8[l])) ==> int(a.labels[l])-int(old(a.danglingS8[l][i])+1) <= 127 && int(a.labels[l])-int(old(a.danglingS8[l][i])+1) >= -128)) && all(l, string, all(i, int, old(has(a.danglingS8, l)) && 0 <= i && i < old(len(a.danglingS8[l])) ==> a.code[old(a.danglingS8[l][i])-a.base] == uint8(a.labels[l]-(old(a.danglingS8[l][i])+1)))) && all(l, string, old(has(a.danglingS8, l)) ==> has(a.labels, l))
 //@   loop 4 invariant all(j, int, 0 <= j && j < len(refs) ==> refs[j] == old(a.danglingU16[label][j])) && len(refs) == old(len(a.danglingU16[label])) && has(a.labels, label) && addr == a.labels[label] && old(has(a.danglingU16, label))
 //@   loop 4 invariant all(l, string, all(i, int, visited(3, l) && l != label && 0 <= i && i < old(len(a.danglingU16[l])) ==> a.code[old(a.danglingU16[l][i])-a.base] == uint8(a.labels[l]) && a.code[old(a.danglingU16[l][i])-a.base+1] == uint8(a.labels[l]>>8)))
 //@   loop 4 invariant all(i, int, 0 <= i && i <= rangeindex ==> a.code[old(a.danglingU16[label][i])-a.base] == uint8(a.labels[label]) && a.code[old(a.danglingU16[label][i])-a.base+1] == uint8(a.labels[label]>>8))
+//@   loop 4 invariant all(o, int, 0 <= o && o < len(a.code) && a.code[o] != old(a.code[o]) ==> (any(l, string, any(i, int, old(has(a.danglingS8, l)) && 0 <= i && i < old(len(a.danglingS8[l])) && o == int(old(a.danglingS8[l][i])-a.base))) || any(l, string, any(i, int, old(has(a.danglingU16, l)) && 0 <= i && i < old(len(a.danglingU16[l])) && (o == int(old(a.danglingU16[l][i])-a.base) || o == int(old(a.danglingU16[l][i])-a.base)+1)))))
 //@   loop 4 modifies a.code[:]
 
 // ---- instruction methods (generated by /verif/tools/gen_asm_contracts.py from the method names) ----
